@@ -1,9 +1,10 @@
 #!/bin/sh
-# seed_matrix.sh [tier]: run every seeded defect against the check of its own property (scratch worktree + VERIF_REPO)
-tier=${1:-quick}
+# seed_matrix.sh [tier] [glob] [parallel]: run seeded changes (default: all) against the check of their own
+# property (scratch worktree + VERIF_REPO + private copy of the Lean project per run)
+tier=${1:-quick}; glob=${2:-C*}; par=${3:-4}
 cd /verif
-: > /verif/.work/matrix_$tier.txt
-for d in seeded/C*/; do
-  s=$(basename $d); id=${s%%-*}
-  tools/run_seed.sh $s $id $tier | tee -a /verif/.work/matrix_$tier.txt
-done
+out=/verif/.work/matrix_$tier.txt
+: > $out
+ls -d seeded/$glob | xargs -n1 basename | xargs -P $par -I{} sh -c 's={}; id=${s%%-*}; tools/run_seed.sh $s $id '"$tier"' >> '"$out"
+sort -o $out $out
+cat $out
